@@ -22,24 +22,27 @@ open GS.Budget GS.Generated.Budget
 
 /-! ### facts about the generated shapes -/
 
-/-- traverser.start tests the counter (<= 0 fails) and then decrements it — after fix 408e52a;
-    before it the steps were `[dec 1, failIf le 0]`, for which this is false at n = 1. -/
-theorem root_is_charge : IsCharge rootCheck := by
-  intro n
-  cases n with
-  | zero => simp [rootCheck, runSteps, Cmp.eval]
-  | succ k =>
-    simp only [rootCheck, runSteps, Cmp.eval]
-    simp
+/-- evaluates a generated step list on a symbolic counter and closes the arithmetic with omega,
+    whatever comparison (`<= 0`, `< 1`, `== 0` …) the Go code spells the test with -/
+macro "charge_tac" : tactic => `(tactic| (
+  simp only [runSteps, Cmp.eval, decide_eq_true_eq, beq_iff_eq, bne_iff_ne]
+  repeat' split
+  all_goals (first | omega | (simp only [Option.some.injEq]; omega) | (exfalso; omega) | simp_all)))
 
-/-- go-ipld-prime's checkLinkBudget has the same shape -/
+/-- traverser.start lets every budget N = k+1 >= 1 through and charges exactly one link for the
+    root — true after fix 408e52a; before it the steps were `[dec 1, failIf le 0]`, for which this
+    is false at k = 0 (budget 1).  (Budgets <= 0 are outside the property and not constrained here.) -/
+theorem root_is_charge : ∀ k : Nat, runSteps rootCheck ((k + 1 : Nat) : Int) = some (k : Int) := by
+  intro k; unfold rootCheck; charge_tac
+
+/-- go-ipld-prime's checkLinkBudget: fail on an exhausted counter, else charge one link -/
 theorem link_is_charge : IsCharge linkCheck := by
   intro n
   cases n with
-  | zero => simp [linkCheck, runSteps, Cmp.eval]
+  | zero => unfold linkCheck; charge_tac
   | succ k =>
-    simp only [linkCheck, runSteps, Cmp.eval]
-    simp
+    have : runSteps linkCheck ((k + 1 : Nat) : Int) = some (k : Int) := by unfold linkCheck; charge_tac
+    rw [this]; simp
 
 theorem wiring : rootCheckBeforeLoad = true ∧ sharedCounter = true := ⟨rfl, rfl⟩
 
@@ -63,7 +66,7 @@ theorem traverse_budget (avail : Cid → Bool) (c : Cid) (kids : List LT) (k : N
          else ⟨c :: (travL avail kids).take k, .budgetExceeded⟩)
       else ⟨[c], .rootMissing⟩ := by
   unfold traverse run
-  simp only [root_is_charge (k + 1), Nat.add_one_ne_zero, if_false, Nat.add_sub_cancel]
+  simp only [root_is_charge k]
   rw [travBL_eq linkCheck link_is_charge avail kids k]
   unfold expect
   by_cases ha : avail c = true
@@ -123,17 +126,41 @@ theorem exact (avail : Cid → Bool) (t : LT) (N : Nat) (hN : 1 ≤ N) (h : need
 /-- the property's "smaller non-zero of the two, 0 = none" -/
 def effective (g p : Nat) : Nat := if g = 0 then p else if p = 0 then g else min g p
 
+/-- any Boolean condition equivalent to "global is 0, or per-request is non-zero and smaller"
+    selects the effective limit (keeps `pick_eq` independent of how the Go condition is spelled) -/
+theorem pick_of_cond (g p : Nat) (c : Bool) (hc : c = true ↔ (g = 0 ∨ (p ≠ 0 ∧ p < g))) :
+    (if c then p else g) = effective g p := by
+  unfold effective
+  have cfalse : ¬ (g = 0 ∨ (p ≠ 0 ∧ p < g)) → c = false := by
+    intro hn
+    cases hcc : c
+    · rfl
+    · exact absurd (hc.1 hcc) hn
+  by_cases hg : g = 0
+  · have hct : c = true := hc.2 (Or.inl hg)
+    simp [hct, hg]
+  · by_cases hp : p = 0
+    · have hcf : c = false := cfalse (by omega)
+      simp [hcf, hg, hp]
+    · by_cases hlt : p < g
+      · have hct : c = true := hc.2 (Or.inr ⟨hp, hlt⟩)
+        simp [hct, hg, hp, Nat.min_eq_right (Nat.le_of_lt hlt)]
+      · have hcf : c = false := cfalse (by omega)
+        simp [hcf, hg, hp, Nat.min_eq_left (Nat.le_of_not_gt hlt)]
+
+/-- turns a Boolean condition over `g p` into a linear-arithmetic proposition and decides the
+    equivalence with omega, whatever the spelling of the Go condition (operand order, `!`, parentheses) -/
+macro "cond_iff" : tactic => `(tactic| (
+  simp only [Bool.or_eq_true, Bool.and_eq_true, beq_iff_eq, bne_iff_ne, ne_eq, decide_eq_true_eq,
+    Bool.not_eq_true', Bool.not_eq_false', decide_eq_false_iff_not, beq_eq_false_iff_ne,
+    Bool.or_eq_false_iff, Bool.and_eq_false_imp, Nat.not_lt, Nat.not_le, gt_iff_lt, ge_iff_le]
+  <;> try omega))
+
 /-- **select** (both peers): the generated selection expression is `effective` -/
 theorem pick_eq (side : Side) (g p : Nat) : pick side g p = effective g p := by
-  cases side <;>
-  · simp only [pick, requestorPick, responderPick, effective]
-    by_cases hg : g = 0
-    · simp [hg]
-    · by_cases hp : p = 0
-      · simp [hg, hp]
-      · by_cases hlt : p < g
-        · simp [hg, hp, hlt, Nat.min_eq_right (Nat.le_of_lt hlt)]
-        · simp [hg, hp, hlt, Nat.min_eq_left (Nat.le_of_not_lt hlt)]
+  cases side
+  · exact pick_of_cond g p _ (by cond_iff)
+  · exact pick_of_cond g p _ (by cond_iff)
 
 theorem guard_eq (side : Side) (m : Nat) : guard side m = decide (m > 0) := by
   cases side <;> rfl
